@@ -727,6 +727,8 @@ SUBCHECKS = [
     SubCheck("sec_strict_pure_python", subproc.pure_python_variant("checks.c10_keyenc", "o_sec_strict"), strategy=s_sec_blobs,
              budget=(320, 12000), nontrivial=nt_sec_strict,
              rule="the sec_strict cases in the same PYCOIN_NATIVE=none child"),
+    SubCheck("wif_pure_python", subproc.pure_python_variant("checks.c10_keyenc", "o_wif"), strategy=s_wif, budget=(96, 4000), nontrivial=nt_wif,
+             rule="the wif_generated cases (key from secret exponent: SEC, hash160 and address against the reference) in the same PYCOIN_NATIVE=none child"),
     SubCheck("construct_pure_python", subproc.pure_python_variant("checks.c10_keyenc", "o_construct"), strategy=s_construct,
              budget=(160, 6000),
              rule="the construct_generated cases in the same PYCOIN_NATIVE=none child"),
